@@ -292,3 +292,8 @@ def replay(ctx, case):
                 ctx.violation('escape_html_text', 'concatenation', case, observed=out)
         return
     check(ctx, case['text'], case['opts'], case.get('source', 'replay'))
+
+
+import os as _os  # noqa: E402
+if _os.environ.get('VERIF_NO_PINNED'):
+    PINNED = []
